@@ -2,7 +2,7 @@
 type-checked call graph and value provenance but no path-sensitive reasoning beyond must-pass."""
 import json
 
-from .core import walk, strip, term_str, component, const_int, STORE
+from .core import walk, strip, term_str, component, const_int, STORE, foreign_expansion
 from .fx import MAP_KEYMUT, HASH_TRAITS
 from .rules_iter import ret_term, unsite, impl_for, method
 
@@ -855,7 +855,7 @@ def r_unsafekinds(ctx, view):
     n = 0
     for f in sorted(prog.fns.values(), key=lambda x: x.key):
         for bb, t in f.calls():
-            if "func" not in t or t["span"]["exp"]:
+            if "func" not in t or foreign_expansion(t["span"]):
                 continue
             fk = t["func"]["key"]
             if t["func"].get("unsafe"):
@@ -875,7 +875,7 @@ def r_unsafekinds(ctx, view):
         # raw pointer dereferences as places (other than through as_mut)
         for b in f.blocks:
             for s in b["stmts"]:
-                if s["k"] != "assign" or s["span"]["exp"]:
+                if s["k"] != "assign" or foreign_expansion(s["span"]):
                     continue
                 for pl in places_of_stmt(s):
                     if pl["proj"] and pl["proj"][0]["k"] == "deref" and f.local_ty(pl["local"]).get("k") == "ptr":
